@@ -17,8 +17,13 @@ OBS_NAMES = ["ResponsiveNeverDropped", "SilentDropped", "DroppedWithinThree", "N
 
 
 class TimerRun:
-    def __init__(self, interval):
+    # which side's transport reports a full write buffer for the whole life of each connection (bulk data filling it):
+    # keep-alive pings, pongs and acks are not queued behind application data and must go out regardless
+    throttle = ()
+
+    def __init__(self, interval, throttle=()):
         self.I = interval
+        self.throttle = tuple(throttle)
         self.w = DilMidWorld(ping_interval=float(interval))
         self.L = self.w.sides["L"]
         self.F = self.w.sides["F"]
@@ -80,6 +85,10 @@ class TimerRun:
                             break
                     w.connect()
                 self.gen_conn[self.L.conn.gen] = self.conn_no
+                for side in self.throttle:
+                    c = w.sides[side].conn
+                    if c is not None and c.transport.producer is not None:
+                        c.transport.producer.pauseProducing()
             elif a == "ConnLost":
                 w.cut()
                 w.observe_loss("L")
@@ -119,7 +128,7 @@ def spec_projection(st):
 
 
 def replay_behaviour(tid, states, interval):
-    run = TimerRun(interval)
+    run = TimerRun(interval, throttle=[(), ("L",), ("F",), ("L", "F")][tid % 4])
     drift = None
     timers_max = 0
     snaps = []
@@ -244,7 +253,7 @@ def run(prop, tier):
                 run_, rec, drift = replay_behaviour(tid, tr, consts["I"])
                 rec["origin"], rec["config"] = "tlc-sim", name
                 records.append(rec)
-                meta[tid] = {"schedule": run_.schedule, "I": consts["I"]}
+                meta[tid] = {"schedule": run_.schedule, "I": consts["I"], "throttle": list(run_.throttle)}
                 if drift:
                     ndrift += 1
                     if len(cov["drift"]) < 6:
